@@ -1008,7 +1008,9 @@ void
 CrashHandler(int sig, siginfo_t *si, void *)
 {
   static std::atomic<int> once{0};
-  if (once.exchange(1) != 0) _exit(4);
+  if (once.exchange(1) != 0) {
+    for (;;) pause();  // another thread is already writing the report and will end the process
+  }
   const int tid = t_mon.tid;
   uint32_t st = 0;
   if (tid >= 0 && tid < kMaxThreads) st = g_prog[tid].state.load(kRlx);
